@@ -62,20 +62,20 @@ def run(ctx):
         return ctx.finish(rule="re-execution of one recorded behaviour")
     # 1. exhaustive: every pool built from <= MaxN transfers, every commit, every Candidate(bt, max)
     if not os.environ.get("VERIF_DEV_SKIP_MC"):
-        small = dict(Accounts='{"a", "b"}', Values="{0, 2}", Limits="{0, 1}", MaxTs=3, Th=1, Price=1, MinStep=1,
+        small = dict(Accounts='{"a", "b"}', Values="{0, 2}", Limits="{0, 1}", MaxTs=2, Th=1, Price=1, MinStep=1,
                      InitBal=2, MaxN=2, MaxPool=2)
         r = ctx.model_check("exec", "MC_TxPool", "MC_TxPool.cfg", constants=small, coverage=True,
                             timeout=ctx.pick(600, 1500), label="2 transfers, all fields")
-        ctx.check_coverage(r, ["Add", "Commit", "Candidate"])
+        ctx.check_coverage(r, ["Add", "Commit", "Candidate", "DropOld"], allow_zero=("CheckTxs", "HasTx"))
         mid = dict(small, Values="{2}", Limits="{1}", MaxTs=2, MaxN=3, MaxPool=3, InitBal=3)
         r = ctx.model_check("exec", "MC_TxPool", "MC_TxPool.cfg", constants=mid, coverage=True,
                             timeout=ctx.pick(600, 1500), label="3 transfers of value 2, balance 3 (cumulative exhaustion)")
-        ctx.check_coverage(r, ["Add", "Commit", "Candidate"])
+        ctx.check_coverage(r, ["Add", "Commit", "Candidate", "DropOld"], allow_zero=("CheckTxs", "HasTx"))
         if not ctx.quick():
             big = dict(small, MaxTs=2, MaxN=3, MaxPool=3, Limits="{1}")   # (self-transfers doubled the sender/receiver pairs)
             r = ctx.model_check("exec", "MC_TxPool", "MC_TxPool.cfg", constants=big, coverage=True, timeout=3000,
                                 label="3 transfers incl. self-transfers, 2 values, 2 timestamps")
-            ctx.check_coverage(r, ["Add", "Commit", "Candidate"])
+            ctx.check_coverage(r, ["Add", "Commit", "Candidate", "DropOld"], allow_zero=("CheckTxs", "HasTx"))
         ctx.exhaustive = True
     # 2. random walks over a larger universe (3 accounts, 8 transfers, pool of 6)
     depth = ctx.pick(16, 22)
